@@ -1,17 +1,18 @@
 #!/bin/bash
 # Applies every behaviour-preserving patch under /verif/seeded/benign to a clean /repo in turn, runs every check, reverts,
 # and writes seeded/benign/MATRIX.md. Any line other than "all hold" is a false alarm of the machinery.
-cd /repo && [ -z "$(git status --porcelain)" ] || { echo "repo not clean"; exit 2; }
-out=/verif/seeded/benign/MATRIX.md
+REPO=${IRONCALC_REPO:-/repo}; V=${VERIF_DIR:-/verif}
+cd $REPO && [ -z "$(git status --porcelain | grep -v _seed)" ] || { echo "repo not clean"; exit 2; }
+out=$V/seeded/benign/MATRIX.md
 echo "| patch | file(s) | edits | checks not holding |" > $out
 echo "|---|---|---|---|" >> $out
-for d in $(ls -d /verif/seeded/benign/R* | sort -V); do
+for d in $(ls -d $V/seeded/benign/R* | sort -V); do
   r=$(basename $d)
   files=$(grep "^+++ b/" $d/patch.diff | sed 's#+++ b/##' | tr '\n' ' ')
   n=$(grep -c "^@@" $d/patch.diff)
-  cd /repo && git apply $d/patch.diff || { echo "| $r | $files | $n hunks | PATCH DOES NOT APPLY |" >> $out; continue; }
-  res=$(cd /verif && tools/all_checks.sh 2>&1 | grep "^RESULT" | grep -v "holds" | sed 's/RESULT //' | tr '\n' ';')
-  cd /repo && git checkout -- .
+  cd $REPO && git apply $d/patch.diff || { echo "| $r | $files | $n hunks | PATCH DOES NOT APPLY |" >> $out; continue; }
+  res=$(cd $V && tools/all_checks.sh 2>&1 | grep "^RESULT" | grep -v "holds" | sed 's/RESULT //' | tr '\n' ';')
+  cd $REPO && git checkout -- .
   echo "| $r | $files | $n hunks | ${res:-all 32 hold} |" >> $out
   echo "$r: ${res:-all hold}"
 done
